@@ -2,7 +2,7 @@
 tree, discharges them, replays counter-models on the real code, runs the
 bounded stand-ins, matches known findings, writes evidence, sets exit code."""
 from __future__ import annotations
-import os, sys, json, time, subprocess, hashlib, traceback, importlib
+import os, re, sys, json, time, subprocess, hashlib, traceback, importlib
 import z3
 from .engine import Engine
 from .values import Unsupported
@@ -163,7 +163,7 @@ class Ctx:
         if os.environ.get("PYVC_SERIAL"):
             results = [_child_entry(i) for i in range(n)]
         else:
-            pool = mp.get_context("fork").Pool(min(procs, n))
+            pool = mp.get_context("fork").Pool(min(procs, n), maxtasksperchild=1)  # one fresh process per unit: no verifier-side global state (fresh-name counters, Venn caches) leaks between units
             try:
                 asyncs = [pool.apply_async(_child_entry, (i,)) for i in range(n)]
                 results = []
@@ -274,7 +274,8 @@ def run_replay(kind, payload, timeout=300):
     """Run a replay / bounded job on the real code under /venv/bin/python."""
     env = dict(os.environ)
     env["PANOPTICA_CITATION_REMINDER"] = "false"
-    env["PYTHONPATH"] = VERIF + os.pathsep + env.get("PYTHONPATH", "")
+    # a scratch copy of the repository (PYVC_REPO, used only to evaluate seeded changes) must also be what the replay imports
+    env["PYTHONPATH"] = (REPO + os.pathsep if REPO != "/repo" else "") + VERIF + os.pathsep + env.get("PYTHONPATH", "")
     env.setdefault("PANOPTICA_VERIF", "1")
     p = subprocess.run(
         [VENV_PY, "-W", "ignore", "-m", "replay.run", kind],
@@ -481,8 +482,23 @@ def main(argv=None):
     exp_fail = [d for d, ok in ctx.expectations if not ok]
     for d in exp_fail:
         undecided.append(("expectation", d))
-    for v in vac_fail:
-        undecided.append((v, "vacuity guard failed: hypotheses are contradictory"))
+    # A canary is attached to one explored path.  Path enumeration keeps a path when its feasibility check times out, so under load an
+    # infeasible path can be explored; its canary is then (correctly) unsat, which only says that this path has no executions.  The
+    # vacuity failure that matters is a unit ALL of whose canaries are unsat: then nothing reachable was verified.
+    groups = {}
+    for o in ctx.obls:
+        if o.expect == "refutable":
+            key = re.sub(r"#p\d+", "", o.name)
+            groups.setdefault(key, []).append(o.name)
+    infeasible_paths = []
+    for key, names in groups.items():
+        failed = [nm for nm in names if nm in vac_fail]
+        if failed and len(failed) == len(names):
+            for nm in failed:
+                undecided.append((nm, "vacuity guard failed: hypotheses are contradictory"))
+        else:
+            infeasible_paths += failed
+    vac_fail = [v for v in vac_fail if v not in infeasible_paths]
 
     wall = time.time() - t0
     level = getattr(mod, "LEVEL", "proof")
@@ -502,7 +518,7 @@ def main(argv=None):
         "functions_under_contract": ctx.functions,
         "units": ctx.units,
         "undecided": [{"what": n, "why": w} for n, w in undecided],
-        "vacuity_guards": {"canaries": sum(1 for o in ctx.obls if o.expect == "refutable"), "failed": vac_fail,
+        "vacuity_guards": {"canaries": sum(1 for o in ctx.obls if o.expect == "refutable"), "failed": vac_fail, "infeasible_paths_explored": infeasible_paths,
                            "expectations": [{"what": d, "ok": ok} for d, ok in ctx.expectations]},
         "bounded_standins": [{k: v for k, v in b.items() if k not in ("failures",)} for b in bounded_results],
         "known_findings_reported": known_lines,
